@@ -154,7 +154,9 @@ theorem desc_create (s : Store) (arg : Bytes) (now : Nat) : Desc s (s.create arg
     · exact Desc.refl s
     · split
       · exact Desc.refl s
-      · exact Desc.trans (desc_newBoxes now _ s) (desc_newBox _ _ now)
+      · split
+        · exact Desc.refl s
+        · exact Desc.trans (desc_newBoxes now _ s) (desc_newBox _ _ now)
 
 theorem desc_delete (s : Store) (arg : Bytes) : Desc s (s.delete arg).1 := by
   unfold Store.delete
@@ -174,28 +176,30 @@ theorem desc_rename (s : Store) (o n : Bytes) (now : Nat) : Desc s (s.rename o n
   · split
     · exact Desc.refl s
     · split
+      · exact Desc.refl s
       · split
-        · exact Desc.refl s
-        · split
-          · exact Desc.refl s
-          · rename_i ib hib
-            refine ⟨by simp, ?_⟩
-            intro b' hb'
-            simp only [List.mem_append, List.mem_map, List.mem_singleton] at hb'
-            rcases hb' with ⟨b, hb, rfl⟩ | rfl
-            · refine Or.inl ⟨b, hb, ?_, ?_⟩ <;> (by_cases h : b.name = inboxName <;> simp [h])
-            · exact Or.inr (Nat.le_refl _)
-      · split
-        · exact Desc.refl s
         · split
           · exact Desc.refl s
           · split
-            · refine Desc.trans (desc_newBoxes now (ancestors (trimQuotes n)) s) ?_
-              refine ⟨Nat.le_refl _, ?_⟩
+            · exact Desc.refl s
+            · rename_i ib hib
+              refine ⟨by simp, ?_⟩
               intro b' hb'
-              obtain ⟨b, hb, rfl⟩ := List.mem_map.mp hb'
-              exact Or.inl ⟨b, hb, rfl, Nat.le_refl _⟩
-            · exact desc_newBoxes now _ s
+              simp only [List.mem_append, List.mem_map, List.mem_singleton] at hb'
+              rcases hb' with ⟨b, hb, rfl⟩ | rfl
+              · refine Or.inl ⟨b, hb, ?_, ?_⟩ <;> (by_cases h : b.name = inboxName <;> simp [h])
+              · exact Or.inr (Nat.le_refl _)
+        · split
+          · exact Desc.refl s
+          · split
+            · exact Desc.refl s
+            · split
+              · refine Desc.trans (desc_newBoxes now (ancestors (trimQuotes n)) s) ?_
+                refine ⟨Nat.le_refl _, ?_⟩
+                intro b' hb'
+                obtain ⟨b, hb, rfl⟩ := List.mem_map.mp hb'
+                exact Or.inl ⟨b, hb, rfl, Nat.le_refl _⟩
+              · exact desc_newBoxes now _ s
 
 theorem desc_subscribe (s : Store) (a : Bytes) : Desc s (s.subscribe a).1 := by
   unfold Store.subscribe
